@@ -371,3 +371,10 @@ mod tests {
         assert!(indexes.index(&"username".into()).is_none());
     }
 }
+
+// Verification hook (inactive unless built with `--cfg agdb_verif` under Kani).
+#[cfg(all(agdb_verif, kani))]
+#[allow(unused, dead_code, clippy::all)]
+pub(crate) mod verif_h {
+    include!(concat!(env!("AGDB_VERIF_HARNESS"), "/db_index_h.rs"));
+}
